@@ -54,7 +54,7 @@ func profileWeights(p string) weights {
 	case "coll":
 		w.appendS, w.mapOp, w.ranges, w.strOp = 14, 14, 10, 6
 	case "objs":
-		w.structOp, w.callStmt, w.nStructs, w.nFuncs = 18, 8, 3, 4
+		w.structOp, w.callStmt, w.nStructs, w.nFuncs = 18, 8, 5, 4
 	case "pkgs":
 		w.libs, w.callStmt, w.nStructs = 2, 10, 2
 	case "stdlib":
@@ -112,16 +112,21 @@ type G struct {
 	imports map[string]bool
 	uid     int
 
-	loopDepth  int
-	inMapRange bool
-	curResults []*Type
-	curPure    bool
-	budget     int // remaining statements in the current function
-	root       string
-	noCalls    bool
-	callableN  int // funcs[:callableN] may be called from the function being generated
-	inAccess   int
-	aliasOK    bool
+	loopDepth   int
+	inMapRange  bool
+	curResults  []*Type
+	curPure     bool
+	budget      int // remaining statements in the current function
+	root        string
+	noCalls     bool
+	callableN   int // funcs[:callableN] may be called from the function being generated
+	inAccess    int
+	inRecursive bool
+	aliasOK     bool
+	// hidden: inside a function literal, globals whose names an enclosing local
+	// shadows (Go would resolve the name to that local, i.e. capture it;
+	// closures are outside the subset, so such names are simply not used)
+	hidden map[string]bool
 }
 
 func (g *G) name(prefix string) string {
@@ -154,7 +159,7 @@ func (g *G) visible() []*Var {
 		res = append(res, v)
 	}
 	for _, v := range g.globals {
-		if !seen[v.Name] {
+		if !seen[v.Name] && !(g.hidden[v.Name] && v.Pkg == g.pkg) {
 			seen[v.Name] = true
 			res = append(res, v)
 		}
@@ -624,7 +629,9 @@ func (g *G) funcOfType(t *Type) string {
 		}
 	}
 	for _, v := range g.varsOf(t, false) {
-		_ = v
+		if v.RO { // function literals declared by lambdaStmt
+			opts = append(opts, v.Name)
+		}
 	}
 	if len(opts) == 0 {
 		return ""
